@@ -3,6 +3,7 @@ package props
 import (
 	"errors"
 	"fmt"
+	"sort"
 	"strings"
 	"time"
 
@@ -171,10 +172,20 @@ func (c *c06) tagOf(err error) string {
 	if errors.As(err, &pe) {
 		return fmt.Sprintf("panic:%v", pe.Panic())
 	}
-	for tag, e := range c.sent {
-		if errors.Is(err, e) {
-			return tag
+	// (sentinels in sorted order, never in map order; an error carrying several sentinels is reported as such)
+	tags := make([]string, 0, len(c.sent))
+	for tag := range c.sent {
+		tags = append(tags, tag)
+	}
+	sort.Strings(tags)
+	var hits []string
+	for _, tag := range tags {
+		if errors.Is(err, c.sent[tag]) {
+			hits = append(hits, tag)
 		}
+	}
+	if len(hits) > 0 {
+		return strings.Join(hits, "+")
 	}
 	return "unknown:" + firstLineOf(err.Error())
 }
